@@ -19,7 +19,7 @@ import struct
 from ..astutil import dotted, norm, walk_local
 from ..core import Ctx, PropSpec, Unsupported
 from ..extract import where
-from ..interp import ExcVal, Raised, StepLimit
+from ..interp import pub, ExcVal, Raised, StepLimit
 from ..models import ccsds_bytes
 from . import xmlcommon as X
 from .c16 import clone_tree
@@ -552,7 +552,7 @@ def end_to_end_second(ctx: Ctx, RULE: str = "R1.e2"):
                     y = got[0] if len(got) == 1 else None
                     pd = y.kwargs.get("partial_data") if isinstance(y, ExcVal) else None
                     ok = isinstance(y, ExcVal) and y.tname == "UnrecognizedPacketTypeError" and isinstance(pd, dict) and item_diff(pd, full) is None \
-                        and getattr(pd, "cls", None) == "CCSDSPacket" and "raw_data" in getattr(pd, "attrs", {})
+                        and getattr(pd, "cls", None) == "CCSDSPacket" and pub(pd, "raw_data") is not None
                     ctx.decide(ok, RULE, site, "reported with the values decoded so far",
                                f"{desc}: yielded {y!r}{' with partial data: ' + str(item_diff(pd, full)) if isinstance(pd, dict) else ''}; expected an "
                                f"unrecognized-packet report carrying the root container's items", where=where(fi, fi.node))
@@ -673,6 +673,64 @@ def end_to_end_third(ctx: Ctx, RULE: str = "R1.e3"):
             ctx.decide(diff is None, RULE, site, f"{len(full)} items agree", f"{desc}: {diff}", where=where(fi, fi.node))
 
 
+    # the generator's other options do not change what is decoded: records with a 4-byte prefix read from a file in 7-byte
+    # chunks (skip_header_bytes, buffer_read_size_bytes), and segment combining with groups of two APIDs interleaved
+    from ..models import file_source
+    oks = [(desc, apid, user) for desc, apid, user in cases if ref_third(apid, user)[0] == "ok"]
+    site = f"{GEN}::hand-written document::skip_header_bytes=4, buffer_read_size_bytes=7 on a file"
+    try:
+        stream = b"".join(bytes([0xE1, 0xE2, 0xE3, 0xE4]) + ccsds_bytes(user, apid=apid) for _, apid, user in oks)
+        k, got = h.outcome("d.packet_generator(src, skip_header_bytes=4, buffer_read_size_bytes=7)", DEF, d=d, src=file_source(stream))
+        bad = None
+        if k != "ok" or len(got) != len(oks):
+            bad = f"{'ends in ' + str(got) if k != 'ok' else str(len(got)) + ' packets'}; the file holds {len(oks)} records"
+        else:
+            for (desc, apid, user), g in zip(oks, got):
+                diff = item_diff(g, header_items(apid, len(user)) + ref_third(apid, user)[1]) if isinstance(g, dict) else f"yielded {g!r}"
+                if diff:
+                    bad = f"`{desc}`: {diff}"
+                    break
+        ctx.decide(bad is None, RULE, site, f"{len(oks)} records", f"records with a 4-byte prefix read in 7-byte chunks: {bad}", where=where(fi, fi.node))
+    except (Unsupported, StepLimit, Raised) as e:
+        ctx.unknown(RULE, site, str(e))
+    site = f"{GEN}::hand-written document::combine_segmented_packets, groups of two APIDs interleaved"
+    try:
+        (_, a1, u1), (_, a2, u2) = next(x for x in oks if 100 <= x[1] < 200), next(x for x in oks if 200 <= x[1] < 300)
+        seg = lambda apid, part, flags, count: ccsds_bytes(part, apid=apid, flags=flags, count=count)      # noqa: E731
+        stream = seg(a1, u1[:3], 1, 0) + seg(a2, u2[:5], 1, 0) + seg(a1, u1[3:], 2, 1) + seg(a2, u2[5:], 2, 1)
+        k, got = h.outcome("d.packet_generator(src, combine_segmented_packets=True)", DEF, d=d, src=stream)
+        bad = None
+        if k != "ok" or len(got) != 2:
+            bad = f"{'ends in ' + str(got) if k != 'ok' else str(len(got)) + ' packets'}; two complete groups were sent"
+        else:
+            for (apid, user, n1), g in zip(((a1, u1, 3), (a2, u2, 5)), got):
+                diff = item_diff(g, header_items(apid, n1, flags=1) + ref_third(apid, user)[1]) if isinstance(g, dict) else f"yielded {g!r}"
+                if diff:
+                    bad = f"group of APID {apid}: {diff}"
+                    break
+        ctx.decide(bad is None, RULE, site, "two groups", f"FIRST(A) FIRST(B) LAST(A) LAST(B) with combining enabled: {bad}", where=where(fi, fi.node))
+    except (Unsupported, StepLimit, Raised) as e:
+        ctx.unknown(RULE, site, str(e))
+    # two definitions alive at once: a second definition assembled from SOME of this definition's container objects (a
+    # trimmed copy for another consumer) must not change what this one decodes
+    site = f"{GEN}::hand-written document::second definition built from a subset of its containers"
+    try:
+        h.ev("XtcePacketDefinition([d.containers['CCSDSPacket'], d.containers['RANGE_A']])", DEF, d=d)
+        bad = None
+        for desc, apid, user in cases:
+            kind, want = ref_third(apid, user)
+            if kind != "ok":
+                continue
+            k, got = h.outcome("d.packet_generator(src)", DEF, d=d, src=ccsds_bytes(user, apid=apid))
+            diff = item_diff(got[0], header_items(apid, len(user)) + want) if k == "ok" and len(got) == 1 and isinstance(got[0], dict) else f"yields {got!r}"
+            if diff:
+                bad = f"after another definition was assembled from two of its containers, `{desc}`: {diff}"
+                break
+        ctx.decide(bad is None, RULE, site, "unchanged", bad or "", where=where(fi, fi.node))
+    except (Unsupported, StepLimit, Raised, AssertionError) as e:
+        ctx.unknown(RULE, site, str(e))
+
+
 def check(ctx: Ctx) -> None:
     ctx.guard("R1.e3", GEN, end_to_end_third, ctx)
     ctx.guard("R1.e2", GEN, end_to_end_second, ctx)
@@ -724,7 +782,8 @@ SPEC = PropSpec(
                  "its own calibration formulas); undefined packets are skipped or reported in their stream position; "
                  "headers-only mode yields the raw packets. The value-level claim for all documents is the conjunction "
                  "of C03-C08/C14, each decided for its own part."
-                 " R1.e2: a second document (two sibling containers that both match, (A or B) and (C or D) criteria, a context calibrator keyed on the parameter's own raw value incl. 0, a step spline queried at its last point, the XTCE 1.1 spelling twosCompliment, a length lookup whose first entry is only partly satisfied) decoded for five packets with and without error reporting."),
+                 " R1.e2: a second document (two sibling containers that both match, (A or B) and (C or D) criteria, a context calibrator keyed on the parameter's own raw value incl. 0, a step spline queried at its last point, the XTCE 1.1 spelling twosCompliment, a length lookup whose first entry is only partly satisfied) decoded for five packets with and without error reporting."
+                 " R1.e3: a third document written by hand as XML text (spellings the library's writer never produces: the `signed` attribute contradicting the encoding, zero-padded literals, a comparison list with two comparisons on one parameter - a range and a contradiction -, time encodings with scale and offset together, contexts of different lengths in document order, a spline with a step, a little-endian termination character) decoded for APIDs 0..2047 against a reference, with and without error reporting."),
     rule_doc="R1.1 per registry row / listed class; R1.2 per concrete class; R1.e per packet of the stream x reporting option",
     assumptions=["struct (IEEE-754), Python codecs", "the model of lxml used to load the document (spv/xmlmodel.py)"],
     mutants=mutants,
